@@ -1387,6 +1387,7 @@ JNP = {
     'issubdtype': lambda d, c: _issubdtype(d, c),
     # machine constants of the working precision (float32 unless the program asks otherwise), as exact rationals
     'result_type': lambda *a: 'float32',
+    'promote_types': lambda a, b: _promote_types(a, b),
     'finfo': lambda d=None: Struct('finfo', {'eps': Rat.lift(Fraction(1, 2 ** 23)), 'epsneg': Rat.lift(Fraction(1, 2 ** 24)),
                                              'tiny': Rat.lift(Fraction(1, 2 ** 126)), 'smallest_normal': Rat.lift(Fraction(1, 2 ** 126)),
                                              'max': Rat.lift((2 - Fraction(1, 2 ** 23)) * 2 ** 127),
@@ -2083,6 +2084,9 @@ class Interp:
             return ('bound', 'seq_' + a, v)
         if isinstance(v, (list, str, bytes, dict, set, range)) and not (isinstance(v, tuple) and v and isinstance(v[0], str) and len(v) == 3) and hasattr(v, a) and callable(getattr(v, a)):
             return ('pybound', getattr(v, a))
+        if type(v) in (int, float, bool) and a in ('bit_length', 'is_integer', 'conjugate', 'real', 'imag', 'bit_count', 'as_integer_ratio'):
+            val = getattr(v, a)
+            return ('pybound', val) if callable(val) else val
         raise OutOfFragment('attr %s on %s' % (a, type(v).__name__))
 
     # --- calls
@@ -2372,6 +2376,9 @@ class Interp:
             lv = [asarr(x) for x in self.leaves(tree)]
             shapes = [x.shape for x in lv]
             flat = np.concatenate([x.ravel() for x in lv]) if lv else np.empty((0,), dtype=object)
+            kinds_ = {self.dtypes.get(id(x), ('float', None))[0] for x in self.leaves(tree)}
+            if len(kinds_) == 1 and kinds_ != {'float'}:
+                self.dtypes[id(flat)] = (kinds_.pop(), flat)       # an all-integer record flattens to an integer vector
             def unflatten(v, tree=tree, shapes=shapes):
                 v = asarr(v)
                 out, pos = [], 0
@@ -3324,6 +3331,31 @@ def _allclose(a, b):
 _DTYPE_CLASSES = {
     'generic': ('float', 'int', 'uint', 'bool'), 'number': ('float', 'int', 'uint'), 'inexact': ('float',), 'floating': ('float',),
     'integer': ('int', 'uint'), 'signedinteger': ('int',), 'unsignedinteger': ('uint',), 'bool_': ('bool',), 'bool': ('bool',)}
+
+
+def _promote_types(a, b):
+    """jnp.promote_types on the interpreter's dtype tags (JAX's lattice, x64 disabled): int (+) float -> float32 -- NOT a
+    superset of int32 (24-bit mantissa) --, equal kinds stay, anything (+) bool stays."""
+    def kind(d):
+        if isinstance(d, tuple) and d and d[0] == 'dtype':
+            return d[1]
+        if isinstance(d, tuple) and len(d) == 3 and d[0] == 'prim':
+            d = d[1]
+        for nm in ('float16', 'float32', 'float64', 'int8', 'int16', 'int32', 'int64', 'uint8', 'uint32', 'uint64', 'bool_'):
+            if d is JNP.get(nm) or d == nm:
+                return 'float' if nm.startswith('float') else 'bool' if nm == 'bool_' else 'uint' if nm.startswith('uint') else 'int'
+        if d is float: return 'float'
+        if d is int: return 'int'
+        if d is bool: return 'bool'
+        raise OutOfFragment('promote_types of %r' % (d,))
+    ka, kb = kind(a), kind(b)
+    if ka == kb:
+        return ('dtype', ka)
+    if 'bool' in (ka, kb):
+        return ('dtype', kb if ka == 'bool' else ka)
+    if 'float' in (ka, kb):
+        return ('dtype', 'float32<-' + (kb if ka == 'float' else ka))      # lossy for 32-bit integers
+    return ('dtype', 'int')
 
 
 def _issubdtype(d, c):
